@@ -8,6 +8,9 @@ ASSUME KeyTypes \subseteq DOMAIN KeyInfo /\ CtorKeyTypes \subseteq DOMAIN KeyInf
 AllCodes == 0..255
 ASSUME HashMutCodes \subseteq Codes /\ SigMutCodes \subseteq Codes
 ASSUME Depth \in Nat /\ Depth >= 2
+\* the exhaustive two-call instance (SigVerifyHistPairs.cfg) takes one non-standard value of either shape dimension
+PairsIssuances == {"direct", "viaP"}
+PairsOrders == {"std", "poisonBeforeAki"}
 
 (* --- the walk: one successor per step (RandomElement bound once per step; a LET would re-draw per use) --- *)
 \* Neighbours are what matters: consecutive calls that differ in ONE component.  A session starts with the object
@@ -17,44 +20,63 @@ ASSUME Depth \in Nat /\ Depth >= 2
 \* unmutated again.  After a call that presented a mutation: 16 in 20 back to the unmutated object (valid - mutated
 \* - valid on the same objects gives both directions for the mutated component), 2 in 20 the same call again,
 \* 2 in 20 another mutation.  The flag only changes in the toggle step.
-CompOf(mu) == CASE mu.m = "field" -> mu.t            [] mu.m = "key-same-type" -> "keyid"
+CompOf(mu) == CASE mu.m \in {"field", "unser"} -> mu.t  [] mu.m = "key-same-type" -> "keyid"
                  [] mu.m = "key-other-type" -> "keytype" [] mu.m = "value" -> "form"
                  [] OTHER -> mu.m   \* "hash", "sig"
 ProperMuts(b) == Muts(b.kind, b.key, b.hash) \ {NoMut}
 MutCompsOf(b) == {CompOf(mu) : mu \in ProperMuts(b)}
 SimOpen ==
   \E k \in {RandomElement(Kinds)}, kt \in {RandomElement(KeyTypes)} :
-    \E h \in {RandomElement(ObjHashes(k))} : Open([kind |-> k, key |-> kt, hash |-> h])
+    \E h \in {RandomElement(ObjHashes(k))}, sh \in {RandomElement(Shapes(k))} :
+      Open([kind |-> k, key |-> kt, hash |-> h, shape |-> sh])
+\* Refusals: after a call that presented the unmutated object 1 step in 20, after a mutated one 1 in 20, is an
+\* Interlude; unencodable presentations of the session's own object are mutations like the others.  After a refused
+\* step (the ghost `residue` is up) of a session whose calls build signed bytes: 10 in 20 the unmutated object (a
+\* Residue implementation rejects it), 7 in 20 the glued value (it accepts it), 1 in 20 another interlude, else
+\* any mutation.
+LastCall == LET idx == {i \in 1..Len(hist) : IsCall(hist[i])} IN
+            IF idx = {} THEN 0 ELSE CHOOSE i \in idx : \A j \in idx : j <= i
 SimCall ==
   /\ base # NoBase /\ Len(hist) < Depth
   /\ \E w \in {RandomElement(1..20)}, rot \in {RandomElement(0..3)}, a0 \in {RandomElement(Allows(base.kind))} :
-       LET first == Len(hist) = 0
-           prev == IF first THEN [mut |-> NoMut, allow |-> a0] ELSE hist[Len(hist)].call
+       LET first == LastCall = 0
+           prev == IF first THEN [mut |-> NoMut, allow |-> a0] ELSE hist[LastCall].call
            tog == IF ViaVerifier(base.kind) THEN ~prev.allow ELSE FALSE
            Mutated == \E x \in {RandomElement(MutCompsOf(base))} :
                         \E mu \in {RandomElement({m \in ProperMuts(base) : CompOf(m) = x})} :
                           Call([mut |-> mu, allow |-> prev.allow], rot)
            Unmutated == Call([mut |-> NoMut, allow |-> prev.allow], rot)
-       IN IF first THEN Unmutated
+           Refusal == \E u \in {RandomElement(Unencodables)} : Interlude(u, rot)
+       IN IF Len(hist) = 0 THEN Unmutated
+          ELSE IF residue /\ Serializes(base.kind)
+               THEN CASE w \in 1..10 -> Unmutated
+                      [] w \in 11..17 -> Call([mut |-> Glued, allow |-> prev.allow], rot)
+                      [] w = 18 -> Refusal
+                      [] OTHER -> Mutated
           ELSE IF prev.mut = NoMut
-               THEN CASE w \in 1..11 -> Mutated
+               THEN CASE w \in 1..10 -> Mutated
+                      [] w = 11 -> Refusal
                       [] w \in 12..15 -> Call([prev EXCEPT !.allow = tog], rot)
                       [] w \in 16..17 -> Call(prev, rot)
                       [] OTHER -> Unmutated
-               ELSE CASE w \in 1..16 -> Unmutated
+               ELSE CASE w \in 1..15 -> Unmutated
+                      [] w = 16 -> Refusal
                       [] w \in 17..18 -> Call(prev, rot)
                       [] OTHER -> Mutated
 \* Simulation evaluates invariants on every candidate successor: the export hangs on a unique closing step.
 End == [op |-> "End"]
 Finish == /\ Len(hist) = Depth
           /\ hist' = Append(hist, End)
-          /\ UNCHANGED <<base, last, exposed>>
+          /\ UNCHANGED <<base, last, exposed, residue>>
 SimNext == (base = NoBase /\ SimOpen) \/ SimCall \/ Finish
 
 \* one exported call: the case in the shape of MCSigVerify's export (the harness reads both with one type), plus
 \* `ctor0`: can a verifier be built for the presented key without the opt-in (the concurrent replay keeps the
 \* process-wide flag off), and `rot`
+\* (an interlude is exported as a row of its own shape: the unencodable object and the verdict "error")
 Row(h) ==
+  IF IsInterlude(h) THEN [interlude |-> h.interlude, expect |-> h.res, rot |-> h.rot]
+  ELSE
   LET c == CaseOf(base, h.call) IN
   [c |-> c, expect |-> h.res[1], e2e |-> h.res[2],
    pkey |-> PKeyType(c), phash |-> PHash(c), psig |-> PSig(c),
@@ -68,4 +90,8 @@ ExportWalk ==
 \* that memoises on everything but the issuer key hash agrees with the function on every reachable history.
 \* TLC must report this violated.
 MemoIssuerAgrees == <<"issuerkeyhash", "accept">> \notin exposed
+\* the same for Residue (SigVerifyHistResidue.cfg): TLC must find a history on which an implementation that keeps
+\* what a refused call emitted answers wrongly in either direction
+ResidueAgreesReject == <<"residue", "reject">> \notin exposed
+ResidueAgreesAccept == <<"residue", "accept">> \notin exposed
 =============================================================================
